@@ -1,5 +1,5 @@
 """C10 - lexical scoping and structured control flow."""
-from . import machine
+from . import docex, machine
 
 replay_one = machine.replay_one
 
@@ -13,6 +13,9 @@ def run(chk):
                 "a print, a shadowing declaration, an update of x, a (conditional) break or return innermost and tracer "
                 "prints at every block entry/exit; numeric ranges over all 1-, 2- and 3-operand tuples of a value set "
                 "(negative, fractional, zero step, empty); hand-picked recursion / call-before-definition / "
-                "evaluated-once / condition-before-every-iteration programs; non-trivial = distinct program text" % depth)
+                "evaluated-once / condition-before-every-iteration programs; programs of examples/human-eval (a seeded sample of 24 "
+                "at the quick tier, all 162 at the thorough tier) exported from the real parser's tree and run by the machine; non-trivial = distinct program text" % depth)
     chk.exhaustive = True
+    # whole programs of the repository, parsed by the real parser and run by the same machine
+    cases += docex.corpus(chk, chk.tier)
     machine.replay_family(chk, cases)
